@@ -2,7 +2,6 @@ package props
 
 import (
 	"bytes"
-	"crypto/ed25519"
 	"errors"
 	"fmt"
 	"io"
@@ -364,38 +363,8 @@ func usesEd(recs []hx.RecSpec, idx int) bool {
 	return false
 }
 
-// refStanza wraps fileKey for a recipient spec with the reference
-// implementation; all randomness comes from seed.
 func refStanza(p *hx.Pool, r hx.RecSpec, fileKey []byte, seed uint64) []refage.Stanza {
-	switch r.Kind {
-	case "x25519":
-		st, err := refage.WrapX25519(fileKey, hx.PRG(seed, 32), refage.X25519Public(p.X25519[r.Idx]))
-		if err != nil {
-			panic(err)
-		}
-		return []refage.Stanza{st}
-	case "ed25519":
-		st, err := refage.WrapSSHEd25519(fileKey, hx.PRG(seed, 32), p.Ed[r.Idx].Public().(ed25519.PublicKey))
-		if err != nil {
-			panic(err)
-		}
-		return []refage.Stanza{st}
-	case "rsa":
-		st, err := refage.WrapSSHRSA(fileKey, bytes.NewReader(hx.PRG(seed, 4096)), &p.RSA[r.Idx].PublicKey)
-		if err != nil {
-			panic(err)
-		}
-		return []refage.Stanza{st}
-	case "scrypt":
-		wf := r.WF
-		if wf == 0 {
-			wf = 2
-		}
-		return []refage.Stanza{refage.WrapScrypt(fileKey, hx.PRG(seed, 16), wf, []byte(r.Pass))}
-	case "stub":
-		return append([]refage.Stanza{}, r.Stub.Stanzas...)
-	}
-	panic("refStanza: " + r.Kind)
+	return hx.RefStanza(p, r, fileKey, seed)
 }
 
 // refFile builds a whole file with the reference implementation.
